@@ -39,7 +39,7 @@ def run_steps(sim, case, extra_ops=None, extra_v2=None):
     if extra_ops is None:
         extra_ops = [('churn', 2)]
     if cfg.get('tbl', 1) >= 2:
-        extra_ops = list(extra_v2 if extra_v2 is not None else extra_ops) + [('lagsnap', 2)]
+        extra_ops = list(extra_v2 if extra_v2 is not None else extra_ops) + [('lagsnap', 2), ('hold', 2), ('stalereply', 1)]
     table = gen.op_table(cfg.get('profile', 'mixed'), extra_ops)
     resolved = []
     if cfg.get('boot', True):
@@ -47,7 +47,12 @@ def run_steps(sim, case, extra_ops=None, extra_v2=None):
     for s in case['steps']:
         if sim.viol:
             break
-        op = table[(s[0] % 100) * len(table) // 100]
+        if cfg.get('tbl', 1) >= 2:
+            # finer resolution than r alone: with more than 100 table slots r*len//100 skips some of them
+            fine = (s[0] % 100) * 100 + ((s[1] * 64 + s[3]) % 100 if len(s) > 3 else 0)
+            op = table[fine * len(table) // 10000]
+        else:
+            op = table[(s[0] % 100) * len(table) // 100]
         r = sim.do_step([op] + list(s[1:]))
         if len(resolved) < 60:
             resolved.append([op, r if r is not False else 'no-op'])
@@ -64,6 +69,12 @@ def base_classes(sim):
         cl.add('snapshot-transfer')
     if any(len(core.log_of(o)) and core.log_of(o)[0][1] > 1 for o in sim.nodes.values()):
         cl.add('log-compacted')
+    if sim.counters.get('stale_replies_delivered'):
+        cl.add('reply-of-earlier-term-delivered')
+    if sim.counters.get('holds'):
+        cl.add('slow-direction')
+    if sim.counters.get('lagsnap_completed'):
+        cl.add('catch-up-macro')
     if sim.net.stats.get('stale_replaced'):
         cl.add('stale-connection-replaced')
     if sim.max_inflight_ae >= 2:
